@@ -11,6 +11,12 @@ SEQ_NOTE = ("Trusted base: the shuttle runtime and the parking_lot shim (every l
             "Assumes sequential consistency at scheduling points; bounds (alphabet, keys, configurations, depth) are "
             "stated in the evidence.")
 
+SCHED_NOTE = ("Trusted base: the shuttle runtime, the parking_lot shim and our scheduler (interleavings only at synchronisation "
+              "operations and named points, sequential consistency); the brute-force linearizability checker; bounds: programs, preemption and deviation bound as in the evidence.")
+CRASH_NOTE = ("Trusted base: VerifFs' operation log and image reconstruction; process-crash model (a crash image is the effect of a prefix of the "
+              "mutating filesystem operations; RainDB issues no sync); histories executed under the deterministic eager schedule.")
+COMP_NOTE = ("Trusted base: the thin cfg(raindb_verif) wrappers over crate-private types, VerifFs, the harness' reference model of the physical log layout.")
+
 CLAIMED = {
   "C01": dict(level="model_checking", design="§5 C01",
      technique="explicit-state exhaustive enumeration of operation sequences on the real DB (fork-shared prefix DFS) vs BTreeMap model",
@@ -21,6 +27,30 @@ CLAIMED = {
   "C10": dict(level="model_checking", design="§5 C10",
      technique="exhaustive operation-sequence enumeration on the real DB; structural invariant evaluated in every state",
      text="In every state reached by every sequence up to the stated depth (incl. reopen with changed options) the structured layout is checked: sortedness/disjointness per level >= 1, bounds order, bounds == stored first/last entry, no duplicate numbers, descriptors agree with the structure."),
+  "C02": dict(level="fault_enumeration", design="§5 C02", note=CRASH_NOTE,
+     technique="exhaustive crash-point enumeration: every prefix of the filesystem-operation log of recorded histories (and of the recovery's own log), each recovered with the real DB::open and compared with the model of acknowledged operations",
+     text="For every history of a generated family (all sequences up to a depth over put/delete/batch/multi-block batch/flush/compaction/reopen in four configurations) and three covering histories: every prefix of the totally ordered mutating filesystem operations is materialised as a crash image, recovered, checked against the acknowledged model (in-flight batch all or nothing), probed with new writes and reopened; nested crashes during recovery likewise."),
+  "C03": dict(level="model_checking", design="§5 C03",
+     technique="exhaustive operation-sequence enumeration with live snapshots/iterators vs frozen model copies + preemption-bounded exhaustive schedule exploration of reader-vs-compaction programs",
+     text="Sequence part: every sequence up to the stated depth over writes, snapshots (<=2 live), a held iterator, flushes, compactions and seek-triggered compaction; after every operation every live snapshot's gets and forward/backward scans and the held iterator equal the model frozen at creation. Schedule part: all schedules within the preemption/deviation bound of snapshot/iterator readers against overwrite+flush+compaction+file deletion under strict-unlink."),
+  "C05": dict(level="model_checking", design="§5 C05", note=SCHED_NOTE,
+     technique="stateless model checking of the real code: exhaustive preemption/deviation-bounded DFS over thread schedules (own scheduler on the shuttle runtime) with brute-force linearizability checking of each history",
+     text="All schedules with at most the stated number of preemptions/deviations of 12 sharp and 132 generated 2-3 thread programs (get/put/delete/batch/snapshot read/iterator/compact_range over two keys, memtable rotation + flush + version install inside the run); every recorded call/return history must be linearizable against a map model."),
+  "C06": dict(level="model_checking", design="§5 C06", note=SCHED_NOTE,
+     technique="exhaustive preemption/deviation-bounded schedule DFS on the real code; atomic-visibility oracle on snapshot reads and iterator scans",
+     text="All schedules within the bound of writers applying multi-key batches (2-3 keys, rotating, group-commit-merged, delete+put) against snapshot readers and iterator scans, with the named switch points inside apply_changes; every sequence-consistent observation sees all or none of each batch."),
+  "C09": dict(level="model_checking", design="§5 C09",
+     technique="exhaustive operation-sequence enumeration over every public call + preemption-bounded schedule DFS; verdicts are the runtime's deadlock / step-bound / panic detectors",
+     text="Every sequence up to the stated depth over an alphabet containing every public call (incl. all descriptors, iterators, snapshots, reopen) and flush-by-fill workloads, and all schedules within the bound of writer/writer/compaction/flush programs: every execution must run to completion without deadlock, livelock (step bound) or a panic of a client call or the background thread."),
+  "C11": dict(level="model_checking", design="§5 C11",
+     technique="exhaustive operation-sequence enumeration with a directory-listing oracle after each reclamation opportunity + schedule DFS of readers vs deletion under strict unlink",
+     text="At every node of every sequence up to the stated depth (snapshots, iterators, seek compactions, reopen) where nothing pins old versions, the three directories must hold exactly CURRENT, LOCK, the current manifest, needed WALs and the tables of the current layout; live tables must exist whenever a snapshot/iterator is held; no read concurrent with compaction + deletion touches a removed file."),
+  "C12": dict(level="exploration", design="§5 C12", note=COMP_NOTE,
+     technique="exhaustive enumeration of record-length sequences around the block arithmetic, writer re-open splits, truncation points and stop-between-fragments cases against the real LogWriter/LogReader",
+     text="Bounded-exhaustive: all record-length triples placing the write position at every residue before a block end x second-record classes x re-open splits are written with the real writer and read back byte for byte; each file is truncated at every relevant byte; writer-died-between-fragments + append cases. A statement about all inputs of the enumerated families, not all inputs."),
+  "C16": dict(level="fault_enumeration", design="§5 C16", note=CRASH_NOTE,
+     technique="exhaustive torn-write enumeration: every write of every recorded history cut at the enumerated lengths, recovered with the real DB::open, probed and reopened",
+     text="For the C02 histories every prefix ending in a write with that write cut at every length (<= 64 B) or at the boundary lengths (larger): open succeeds, contents = acknowledged state (torn operation absent or complete), writes acknowledged after recovery survive the next clean reopen, for both reuse_log_files settings."),
 }
 
 NOT_APPLICABLE = {
